@@ -41,6 +41,10 @@ class JacCase(Case):
                 for c in domain(self.cls, P, C, v):
                     assume(c)
             assume(xs[0].e < xs[1].e)
+            if 'mininu' in self.ctor and self.cls in ('Log', 'BoxCox2', 'BoxCox1lam', 'BoxCox1nu'):
+                # the code's own domain test for the jacobian is x + nu > mininu (NaN below it, anchor "NaN outside the domain via np.where")
+                nu = (P['nu'] if 'nu' in P else C['nu']).e
+                assume(xs[0].e + nu >= q(self.ctor['mininu']) + q(0.001))
         return dict(P=P, C=C, x=xs)
 
     def run(self, I):
@@ -104,7 +108,7 @@ def cases(tier):
     out = [JacCase(n) for n in names]
     out += [JacCase('Log', dict(base=10.0)), JacCase('BoxCox2', dict(minilam=-1.0)), JacCase('Reciprocal', dict(mininu=0.5))]
     if tier == 'thorough':
-        out += [JacCase('Log', dict(base=0.5)), JacCase('BoxCox2sym', dict(minilam=-1.0)), JacCase('BoxCox1nu', dict(minilam=-1.0)),
+        out += [JacCase('Log', dict(base=2.0)), JacCase('Log', dict(mininu=0.5)), JacCase('BoxCox2sym', dict(minilam=-1.0)), JacCase('BoxCox1nu', dict(minilam=-1.0)),
                 JacCase('BoxCox2', dict(mininu=0.25))]
     return out
 
